@@ -10,8 +10,13 @@ import (
 	"strconv"
 	"strings"
 
+	"os"
+	"path/filepath"
+
 	"golang.org/x/perf/benchfmt"
+	"golang.org/x/perf/benchmath"
 	"golang.org/x/perf/benchproc"
+	"golang.org/x/perf/cmd/benchstat/internal/benchtab"
 	"golang.org/x/perf/cmd/benchstat/internal/texttab"
 	"golang.org/x/perf/internal/verifh/hx"
 )
@@ -513,9 +518,190 @@ func khCases(r *hx.Rand) {
 	}
 }
 
+// ---------------------------------------------------------------- benchstat text vs CSV
+
+// benchstatBoth drives the pipeline of cmd/benchstat/main.go in-process and renders the same
+// Tables both ways.
+func benchstatBoth(paths []string, colBy string) (text, csvOut, warn string, err error) {
+	filter, err := benchproc.NewFilter("*")
+	if err != nil {
+		return
+	}
+	var parser benchproc.ProjectionParser
+	tableBy, _, err := parser.ParseWithUnit(".config", filter)
+	if err != nil {
+		return
+	}
+	rowBy, err := parser.Parse(".fullname", filter)
+	if err != nil {
+		return
+	}
+	colP, err := parser.Parse(colBy, filter)
+	if err != nil {
+		return
+	}
+	residue := parser.Residue()
+	thresholds := benchmath.DefaultThresholds
+	stat := benchtab.NewBuilder(tableBy, rowBy, colP, residue)
+	files := benchfmt.Files{Paths: paths, AllowStdin: false, AllowLabels: true}
+	for files.Scan() {
+		switch rec := files.Result(); rec := rec.(type) {
+		case *benchfmt.Result:
+			if ok, _ := filter.Apply(rec); !ok {
+				continue
+			}
+			stat.Add(rec)
+		}
+	}
+	if err = files.Err(); err != nil {
+		return
+	}
+	tables := stat.ToTables(benchtab.TableOpts{Confidence: 0.95, Thresholds: &thresholds, Units: files.Units()})
+	var tb, cb, wb bytes.Buffer
+	if err = tables.ToText(&tb, false); err != nil {
+		return
+	}
+	if err = tables.ToCSV(&cb, &wb); err != nil {
+		return
+	}
+	return tb.String(), cb.String(), wb.String(), nil
+}
+
+type benchGen struct {
+	name  string
+	base  float64
+	units []string
+}
+
+func genFile(r *hx.Rand, benches []string, pkgs []string, scale float64, tags map[string]bool) string {
+	var sb strings.Builder
+	sb.WriteString("goos: linux\n")
+	for _, pkg := range pkgs {
+		if pkg != "" {
+			fmt.Fprintf(&sb, "pkg: %s\n", pkg)
+		}
+		for _, b := range benches {
+			n := 1 + r.Intn(7)
+			if r.Chance(1, 3) {
+				n = 6 + r.Intn(5) // enough samples for a significant difference
+			}
+			base := []float64{3.2, 1718, 1.5e6, 2.4e9, 0.85, 99.99, 1023, 47}[r.Intn(8)] * scale
+			noise := []float64{0, 0.001, 0.02, 0.3}[r.Intn(4)]
+			for i := 0; i < n; i++ {
+				v := base * (1 + noise*(r.Float()-0.5))
+				fmt.Fprintf(&sb, "Benchmark%s-8 \t%d\t%s ns/op", b, 1+r.Intn(1000), strconv.FormatFloat(v, 'g', 4+r.Intn(4), 64))
+				if r.Chance(1, 3) {
+					tags["units"] = true
+					fmt.Fprintf(&sb, "\t%d B/op", r.Intn(5000000))
+					if r.Bool() {
+						fmt.Fprintf(&sb, "\t%d allocs/op", r.Intn(30))
+					}
+				}
+				sb.WriteString("\n")
+			}
+		}
+	}
+	return sb.String()
+}
+
+func e2eCases(r *hx.Rand) {
+	dir := filepath.Join("e2e", os.Getenv("VERIF_SHARD"))
+	os.MkdirAll(dir, 0o777)
+	n := hx.N(150, 3000)
+	for i := 0; i < n; i++ {
+		tags := map[string]bool{}
+		nfiles := 1 + r.Intn(3)
+		all := []string{"A", "Encode/size=10", "Decode", "B/k=1/j=x", "C"}
+		nb := 1 + r.Intn(4)
+		pool := all[:nb]
+		pkgs := []string{""}
+		if r.Chance(1, 4) {
+			tags["tables"] = true
+			pkgs = []string{"p/one", "p/two"}
+		}
+		f14 := nfiles >= 2 && r.Chance(1, 3)
+		var paths []string
+		labels := []string{"old", "new", "exp-with-a-long-name"}
+		for f := 0; f < nfiles; f++ {
+			var benches []string
+			for _, b := range pool {
+				if r.Chance(5, 6) {
+					benches = append(benches, b)
+				} else {
+					tags["missing"] = true
+				}
+			}
+			if f14 {
+				// the F14 shape: the baseline shares no benchmark with the later columns
+				tags["nodelta"] = true
+				if f == 0 {
+					benches = []string{"A"}
+				} else {
+					benches = []string{"Zed", "Y"}[:1+r.Intn(2)]
+				}
+			}
+			scale := 1.0
+			if r.Chance(1, 2) {
+				scale = []float64{0.5, 0.9, 1.1, 2, 1000}[r.Intn(5)]
+			}
+			p := filepath.Join(dir, fmt.Sprintf("f%d.txt", f))
+			os.WriteFile(p, []byte(genFile(r, benches, pkgs, scale, tags)), 0o666)
+			if r.Chance(2, 3) {
+				paths = append(paths, labels[f]+"="+p)
+			} else {
+				paths = append(paths, p)
+			}
+		}
+		colBy := ".file"
+		switch r.Intn(5) {
+		case 0:
+			tags["levels"] = true
+			colBy = "goos,.file"
+		case 1:
+			if len(pkgs) > 1 {
+				tags["levels"] = true
+				colBy = "pkg,.file"
+			}
+		}
+		if nfiles > 1 {
+			tags["compare"] = true
+		}
+		func() {
+			defer func() {
+				if e := recover(); e != nil {
+					hx.Printf("case %d kind=e2e tag=crash\n", id)
+					hx.Printf("crash %d %v\n", id, e)
+				}
+			}()
+			text, csvOut, warn, err := benchstatBoth(paths, colBy)
+			if err != nil {
+				hx.Printf("case %d kind=e2e err=%s tag=err\n", id, hx.HexS(err.Error()))
+				return
+			}
+			if strings.Contains(text, "¹") {
+				tags["warn"] = true
+			}
+			var tl []string
+			for _, k := range []string{"compare", "nodelta", "missing", "tables", "levels", "units", "warn"} {
+				if tags[k] {
+					tl = append(tl, k)
+				}
+			}
+			tag := "trivial"
+			if len(tl) > 0 {
+				tag = strings.Join(tl, "+")
+			}
+			hx.Printf("case %d kind=e2e text=%s csv=%s warn=%s tag=%s\n", id, hx.HexS(text), hx.HexS(csvOut), hx.HexS(warn), tag)
+			hx.Printf("sobs %d agree=ok hdr=ok layout=ok\n", id)
+		}()
+		id++
+	}
+}
+
 func main() {
 	defer hx.Flush()
 	r := hx.NewRand(16)
 	tabCases(r)
 	khCases(hx.NewRand(1016))
+	e2eCases(hx.NewRand(2016))
 }
